@@ -45,6 +45,24 @@ def semtok_documents(tier, seed, class_table, kw_default, cov):
         texts.append(t)
         for _ in range(nvar):
             texts.append(corpus.mutate_trivia(t, rng, n=8))
+    # sentences of the reference grammar (the sweep configurations of Grammar.tla: every keyword, every literal form), so
+    # that every kind of lexeme the parser knows meets the legend table: greedily those that bring a token not seen yet,
+    # plus a sample; canonical spelling and one spelling with random trivia and case
+    import gram
+    import gramcheck
+    seen_tokens = set()
+    picked = []
+    ds = gramcheck.derivations(["SwExpr", "SwStmt", "SwTypes", "SwFb", "SwProg", "SwFunc", "SwSfc", "SwConfig"], cov)
+    for k, d in enumerate(ds):
+        toks = set((c, t.upper() if c == "kw" else t) for c, t, _ in d["toks"] if c != "id")
+        if not toks <= seen_tokens or k % (40 if tier == "quick" else 8) == 0:
+            seen_tokens |= toks
+            picked.append(d)
+    for d in picked:
+        texts.append(gram.spell(d["toks"])[0])
+        texts.append(gram.spell(d["toks"], rng, trivia=True, case=True)[0])
+    cov["grammar_sentences_as_documents"] = len(picked)
+    cov["distinct_non_identifier_tokens_in_them"] = len(seen_tokens)
     # documents touched by the (documented) OSCAT preprocessing are C05's subject
     texts = [t for t in texts if lexcheck.preprocess(t) == t]
     res = vlib.harness("lex", [{"id": i, "text": t} for i, t in enumerate(texts)])
